@@ -808,6 +808,12 @@ def run(tier='quick'):
     # every version's copy must be the definition its siblings / the reference dump carry
     from . import c08
     c08.chain_trigger_siblings(prog, chk, U9, tables=(), views=('playlistallchildren', 'playlistallparent'))
+    U14 = chk.rule('U14', 'no use after free through a stale pointer: a raw pointer or iterator taken from a growable container '
+                          '(v.data(), &v[i], v.begin()) and kept in a local or in a member of a local struct is not used after an '
+                          'operation that may reallocate the container (resize, reserve, insert, push_back, ...) unless taken '
+                          'again (every function of the library; rule D7 of C05)', floor=20)
+    from . import extra
+    extra.pointers_fresh(prog, chk, U14, [g for g in prog.functions.values() if g.body is not None and prog.in_repo(g.file)])
     return chk.finish('must-fact (dominance) analysis over the structured AST of every function of the library '
                       'outside the schema creators: %d functions; optional dereferences, container indexing, '
                       'iterator uses and integer divisions are obligations discharged by dominating guards' % len(chk.functions_analysed))
